@@ -1503,6 +1503,35 @@ struct Exec {
                 viol("C17", "complete_file_rejected", std::string("read_rawcells returned ") + bridge::error_name(ec) + " for a complete file", ctx);
             else if (sorted(h.names) != sorted(d.cell_names))
                 viol("C17", "rawcell_names", "read_rawcells returned " + std::to_string(h.names.size()) + " cells, the file holds " + std::to_string(d.cell_names.size()) + " structures (or the names differ)", ctx);
+            else {
+                // every dependency is one of the raw cells of this file, and a raw cell depends on exactly
+                // the structures of the file that it references (what a copy has to bring along)
+                std::map<const RawCell*, std::string> mine;
+                for (size_t i = 0; i < h.cells.size(); i++) mine[h.cells[i]] = h.names[i];
+                std::map<std::string, std::set<std::string>> want;
+                for (auto& sr : d.structs)
+                    for (auto& n : sr.snames)
+                        if (have.count(n)) want[sr.name].insert(n);
+                for (size_t i = 0; i < h.cells.size(); i++) {
+                    std::set<std::string> got;
+                    bool stray = false;
+                    for (uint64_t k = 0; k < h.cells[i]->dependencies.count; k++) {
+                        auto f = mine.find(h.cells[i]->dependencies[k]);
+                        if (f == mine.end()) stray = true;
+                        else got.insert(f->second);
+                    }
+                    if (stray) {
+                        viol("C17", "rawcell_dependencies", "a dependency of raw cell '" + h.names[i] + "' is not one of the raw cells read from the file", ctx);
+                        break;
+                    }
+                    if (got != want[h.names[i]]) {
+                        viol("C17", "rawcell_dependencies", "raw cell '" + h.names[i] + "' lists " + std::to_string(got.size()) + " dependencies, its structure references " + std::to_string(want[h.names[i]].size()) + " structures of the file (or the sets differ)", ctx);
+                        break;
+                    }
+                }
+                count("rawcell_dependencies_checked");
+                if (dangling) count("rawcell_dependencies_checked_with_absent_targets");
+            }
         }
         raws[slot] = h;
         drain_seam_violations(prop, ctx);
